@@ -257,6 +257,7 @@ package jsonrpc
 //@   props C11
 //@   arith int
 //@   nosafe
+//@   detachedgo
 //@   modifies *
 //@   assigns calls_NextMessage, arg_NextMessage_ctx, calls_DrainToEOF, arg_DrainToEOF_dst, arg_DrainToEOF_src
 //@   callsite Reader@*: previous_messages_drained: calls_DrainToEOF - old(calls_DrainToEOF) == calls_NextMessage - old(calls_NextMessage)
